@@ -252,13 +252,35 @@ def v1KeyedPathClass (m : V1.Metas) (d : V1.VDiff) : Bool :=
        let all := pre.flatten
        all.any (fun x => (all.filter (· == x)).length ≥ 2))
 
+/-- class of KF-C17-keyless: SET + Setkeys, and two or more hunks of the diff lie under the same path object
+    that carries NONE of the set keys: for such a member `pathObject` returns the whole member (in memory: the
+    member map itself), so a diff that does not share memory with the document stops matching the member after
+    the first of those hunks changed it -/
+def v1KeylessPrefixes (keys : List String) (p : List Json) : List String :=
+  (List.range p.length).filterMap (fun i =>
+    match p[i]?, p[i + 1]? with
+    | some (Json.obj po), some (Json.str _) =>
+      if keys.all (fun k => (alookup k po).isNone) then
+        some (String.join ((p.take (i + 1)).map (fun e => " " ++ v1EncPathElem (.node e))))
+      else none
+    | _, _ => none)
+
+def v1KeylessPathClass (m : V1.Metas) (d : V1.VDiff) : Bool :=
+  V1.hasSet m &&
+    (match V1.keysOf m with
+     | none => false
+     | some ks =>
+       let all := (d.map (fun h => (v1KeylessPrefixes ks h.path).eraseDups)).flatten
+       all.any (fun x => (all.filter (· == x)).length ≥ 2))
+
 /-- C17 (text half) on the implementation's outputs: `out` = a.Patch(ReadDiffString(Render(a.Diff(b, meta))))
     on fresh values, `implEq` = its result Equals b -/
 def oracleC17T (m : V1.Metas) (a b : Json) (out : Outcome Json) (implEq : Bool) : String :=
   -- the classes that also break the in-memory half first (hash aliases, -0, precision, Setkeys precondition)
   let bad (why : String) : String :=
     let c := c17Class m a b why
-    if c.startsWith "fail " && v1KeyedPathClass m (V1.diffM m a b) then "kf KF-C17-keyedpath " ++ why
+    if c.startsWith "fail " && v1KeylessPathClass m (V1.diffM m a b) then "kf KF-C17-keyless " ++ why
+    else if c.startsWith "fail " && v1KeyedPathClass m (V1.diffM m a b) then "kf KF-C17-keyedpath " ++ why
     else c
   match out with
   | .ok r =>
